@@ -83,7 +83,7 @@ def run(ctx):
     mcc = {"NCells": 6 if thorough else 5, "NVals": 2}
     negs = (("IsolationNegStoreIn.cfg", "StoreIsolated"), ("IsolationNegInPlace.cfg", "HandedOutStable"),
             ("IsolationNegReadEdits.cfg", "ReadOnlyFrame"), ("IsolationNegFirstWrite.cfg", "StoreIsolated"),
-            ("IsolationNegHookEditsOld.cfg", "HandedOutStable"))
+            ("IsolationNegHookEditsOld.cfg", "HandedOutStable"), ("IsolationNegLendsOld.cfg", "HandedOutStable"))
     small = {"NCells": 4, "NVals": 2}
     jobs = [("mc", lambda: ctx.mc("Isolation", "IsolationMC.cfg", consts=mcc, workers=4, timeout=1500)),
             # the first-write deviation cannot be reached from constructions that already hold a value: the walks
@@ -98,11 +98,12 @@ def run(ctx):
                                   % (cfg, must, res[cfg].out[-2000:]))
     ctx.cov["design_variants_caught"] = ["StoreIn->StoreIsolated", "InPlace->HandedOutStable", "ReadEdits->ReadOnlyFrame",
                                          "FirstWriteKeeps(from an object holding nothing)->StoreIsolated",
-                                         "HookEditsOld(interceptor/callback writes into the old value)->HandedOutStable"]
+                                         "HookEditsOld(interceptor/callback writes into the old value)->HandedOutStable",
+                                         "LendsOld(the caller's message is left sharing memory with the old value)->HandedOutStable"]
 
     phase("mc")
     # 2. Gen: walks for a generic object
-    nwalks = int(os.environ.get("C07_WALKS", "0")) or (1000 if thorough else 40)
+    nwalks = int(os.environ.get("C07_WALKS", "0")) or (1000 if thorough else 30)
     gen = ctx.tlc("Isolation", "IsolationGen.cfg", workers=1, timeout=1500,
                   consts={"NCases": nwalks, "MinOps": 20, "MaxOps": 100 if thorough else 60})
     walks = gen.cases()
@@ -255,8 +256,10 @@ def run(ctx):
                            "'handed to a write': they are neither registered nor scribbled on")
     ctx.assumptions.append("a write may edit the caller's argument during the call (masks filter it); nothing is asserted about "
                            "'in' messages except that the store does not depend on them after the call returned")
-    ctx.assumptions.append("handed-out messages that change because the caller scribbled on a message sharing memory with them "
-                           "are exempt; the defect behind it is reported through the read-back (caller-scribble-changed-store)")
+    ctx.assumptions.append("the caller's scribble writes THROUGH the message in place (pointers of optional scalars, list elements, "
+                           "map entries, bytes, oneof wrappers, nested messages) before setting every field; a handed-out handle "
+                           "that IS one of the overwritten message objects is exempt from then on, any other handle that changes "
+                           "with the scribble is reported as handed-out-message-changed at that scribble step")
 
 
 MANIFEST = {
@@ -270,9 +273,10 @@ MANIFEST = {
             'behaviour of a 5-6 cell heap, from both constructions (nothing stored yet / initial value), that '
             'clone-on-write keeps (1) every handed-out cell equal to the content frozen '
             'when it was handed out, (2) the stored content independent of later scribbles on cells the caller handed in, '
-            '(3) reads, rechecks and forgets leaving the stored content untouched, and that each of five deviations seen in '
+            '(3) reads, rechecks and forgets leaving the stored content untouched, and that each of six deviations seen in '
             'real code (keep the caller\'s object always / only on the first write to an empty object, write in place, '
-            'a read that edits its result, a write hook that edits the old value) violates the matching statement. TLC then prints 40 (quick) / 1000 (thorough) walks of 20-100 steps; '
+            'a read that edits its result, a write hook that edits the old value, a write that leaves the caller\'s '
+            'message sharing memory with the old value) violates the matching statement. TLC then prints 30 (quick) / 1000 (thorough) walks of 20-100 steps; '
             'each is executed on resource.Value, resource.Collection (Get/List/Add/Update/Delete/Pull/PullID, masks, '
             'interceptors, include, id interceptor, equivalence, expected value) and on the public methods of the trait '
             'models listed in the evidence (parent, metadata + its collection, enter/leave, waste, electric, vending, '
